@@ -47,6 +47,22 @@ theorem assoc_mul_small_correct (t : WTy) (ht : t.isSmall = true) (a b c : Int)
       mod_mul_mod]) <;>
     exact Int.emod_eq_of_lt h0 (by omega)
 
+/-- … and that `uint32_t` value is an operand that `lower_correct` accepts: in
+`(a * b * c) + d` on base.u8 the parent node sees a uint32_t left operand
+(`OpdTy`), and is still correct. -/
+theorem assoc_mul_small_operand (t : WTy) (ht : t.isSmall = true) (a b c : Int)
+    (ha : t.has a) (hb : t.has b) (hc : t.has c) (hprod : a * b * c ≤ t.max) :
+    ∃ e r, lowerAssoc .mul t 1 = some e ∧
+      ceval (env3 ⟨ctyOf t, a⟩ ⟨ctyOf t, b⟩ ⟨ctyOf t, c⟩) e = some r ∧ Rep t false (a * b * c) r := by
+  obtain ⟨e, r, h1, h2, h3, h4⟩ := assoc_mul_small_correct t ht a b c ha hb hc hprod
+  have h0 : 0 ≤ a * b * c := Int.mul_nonneg (Int.mul_nonneg ha.1 hb.1) hc.1
+  refine ⟨e, r, h1, h2, ⟨h3, ⟨h0, hprod⟩, ?_, ?_⟩⟩
+  · rw [h4, h3]
+    have : t.max < 2 ^ 32 := by cases t <;> simp [WTy.isSmall] at ht <;> simp [WTy.max, WTy.bits]
+    simp only [CTy.has, CTy.bits]
+    omega
+  · rw [h4]; simp [OpdTy, ht]
+
 /-- non-vacuity at the boundary that was undefined before the repair -/
 example : ∃ e, lowerAssoc .mul .u16 1 = some e ∧
     ceval (env3 ⟨.u16, 65535⟩ ⟨.u16, 65535⟩ ⟨.u16, 0⟩) e = some ⟨.u32, 0⟩ := by
